@@ -312,7 +312,7 @@ reg("SRAM(32bit,rw)", "quick", kind="sram", mw=32, adrs=(0, 1), sels=SEL32, nbyt
 reg("SRAM(16bit,read_only)", "quick", kind="sram", mw=16, adrs=(0, 1), nbytes=4, read_only=True)
 BURSTS = tuple((we, a, kind, n) for we in (0, 1) for (a, kind, n) in ((0, "lin", 2), (1, "lin", 3), (0, "const", 2), (1, "wrap4", 3), (3, "wrap4", 2), (2, "wrap4", 4)))
 reg("SRAM(8bit,bursting)", "quick", kind="sram", mw=8, adrs=(0, 1), nbytes=8, bursting=True, bursts=BURSTS)
-reg("SRAM(16bit,bursting)", "quick", kind="sram", mw=16, adrs=(0, 1), sels=(0b01, 0b11), nbytes=16, bursting=True, marks=(1,),
+reg("SRAM(16bit,bursting)", "quick", kind="sram", mw=16, adrs=(0, 1), sels=(0b01, 0b11), nbytes=32, bursting=True, marks=(1,),
     bursts=tuple((we, a, kind, n) for we in (0, 1) for (a, kind, n) in ((0, "lin", 3), (5, "wrap4", 4), (6, "wrap8", 3), (2, "const", 2))))
 # cache: addresses 0, 2, 4 collide in a 2-line cache (16/16: line = 1 word), 1 is the other line
 reg("Cache(size=2,16/16)+SRAM", "quick", kind="cache", mw=16, sw=16, adrs=(0, 2, 4), sels=(0b01, 0b11), cachesize=2, backing="sram", nbytes=16, depth=4, marks=(1,))
